@@ -21,6 +21,9 @@ Proof.
   cbn [firstn skipn app]. rewrite app_nil_r. reflexivity.
 Qed.
 
+Lemma len_app' (a b : list N) : len (a ++ b) = len a + len b.
+Proof. unfold len. rewrite app_length. lia. Qed.
+
 Lemma take2 x y s : take 2 (x :: y :: s) = Some ([x; y], s).
 Proof. change (x :: y :: s) with ([x; y] ++ s). apply (take_app [x; y] s). Qed.
 
@@ -67,7 +70,7 @@ Lemma read_block_roundtrip flag term nd data rest :
   (1 <= nd <= 9)%nat -> len data < 10 ^ N.of_nat nd ->
   read_block flag term (encode_block nd data ++ (if flag then term else []) ++ rest) = (Ok data, rest).
 Proof.
-  intros Hnd Hlen. unfold encode_block. cbn [app]. unfold read_block.
+  intros Hnd Hlen. unfold encode_block. cbn [app]. unfold read_block, read_block_g.
   rewrite take2. replace (35 =? 35) with true by reflexivity. cbn [negb].
   assert (D : is_digit (48 + N.of_nat nd) = true) by (unfold is_digit; lia).
   rewrite D. cbn [negb]. replace (48 + N.of_nat nd - 48) with (N.of_nat nd) by lia.
@@ -89,7 +92,7 @@ Lemma read_block_sound flag term s data rest :
     s = [35; 48 + nd] ++ digits ++ data ++ (if flag then term else []) ++ rest /\
     1 <= nd <= 9 /\ len digits = nd /\ forallb is_digit digits = true /\ len data = parse_dec digits.
 Proof.
-  unfold read_block.
+  unfold read_block, read_block_g.
   destruct (take 2 s) as [[header s1]|] eqn:T1; [|discriminate].
   apply take_spec in T1. destruct T1 as [-> L1].
   destruct header as [|h0 [|h1 [|? ?]]]; try discriminate; try (unfold len in L1; cbn in L1; lia).
@@ -118,13 +121,13 @@ Qed.
 (* rejection of each malformed-header class, stated directly *)
 Lemma read_block_bad_hash flag term h0 h1 s : h0 <> 35 -> fst (read_block flag term (h0 :: h1 :: s)) = Err EInstr.
 Proof.
-  intro H. unfold read_block. rewrite take2.
+  intro H. unfold read_block, read_block_g. rewrite take2.
   replace (h0 =? 35) with false by lia. reflexivity.
 Qed.
 Lemma read_block_bad_count flag term h1 s :
   is_digit h1 = false \/ h1 = 48 -> fst (read_block flag term (35 :: h1 :: s)) = Err EInstr.
 Proof.
-  intro H. unfold read_block. rewrite take2.
+  intro H. unfold read_block, read_block_g. rewrite take2.
   replace (35 =? 35) with true by reflexivity. cbn [negb].
   destruct (is_digit h1) eqn:D; [|reflexivity]. destruct H as [H | H]; [discriminate | subst h1; reflexivity].
 Qed.
@@ -132,7 +135,7 @@ Lemma read_block_bad_length flag term nd digits s :
   1 <= nd <= 9 -> len digits = nd -> forallb is_digit digits = false ->
   fst (read_block flag term ([35; 48 + nd] ++ digits ++ s)) = Err EInstr.
 Proof.
-  intros Hnd L D. cbn [app]. unfold read_block. rewrite take2.
+  intros Hnd L D. cbn [app]. unfold read_block, read_block_g. rewrite take2.
   replace (35 =? 35) with true by reflexivity. cbn [negb].
   replace (is_digit (48 + nd)) with true by (unfold is_digit; lia). cbn [negb].
   replace (48 + nd - 48) with nd by lia. replace (nd =? 0) with false by lia.
@@ -142,7 +145,7 @@ Lemma read_block_bad_tail term nd data tail rest :
   (1 <= nd <= 9)%nat -> len data < 10 ^ N.of_nat nd -> len tail = len term -> tail <> term ->
   fst (read_block true term (encode_block nd data ++ tail ++ rest)) = Err EInstr.
 Proof.
-  intros Hnd Hlen L NE. unfold encode_block. cbn [app]. unfold read_block.
+  intros Hnd Hlen L NE. unfold encode_block. cbn [app]. unfold read_block, read_block_g.
   rewrite take2. replace (35 =? 35) with true by reflexivity. cbn [negb].
   replace (is_digit (48 + N.of_nat nd)) with true by (unfold is_digit; lia). cbn [negb].
   replace (48 + N.of_nat nd - 48) with (N.of_nat nd) by lia. replace (N.of_nat nd =? 0) with false by lia.
@@ -157,7 +160,7 @@ Qed.
 Lemma read_block_errors flag term s : 
   match fst (read_block flag term s) with Ok _ | Err EInstr | Err ETimeout => True | _ => False end.
 Proof.
-  unfold read_block. destruct (take 2 s) as [[header s1]|] eqn:T1; [|exact I].
+  unfold read_block, read_block_g. destruct (take 2 s) as [[header s1]|] eqn:T1; [|exact I].
   apply take_spec in T1. destruct T1 as [_ L1].
   destruct header as [|h0 [|h1 [|? ?]]]; try (unfold len in L1; cbn in L1; lia).
   repeat match goal with
@@ -215,3 +218,90 @@ Qed.
 
 Lemma ask_timeout cmd ct rt : ascii cmd = true -> ask cmd ct rt RTimeout = ([cmd ++ ct], Err ETimeout).
 Proof. intro A. unfold ask. fold (ascii cmd). rewrite A. reflexivity. Qed.
+
+(* ---------- any splitting of the reply into transfers --------------------------------------- *)
+Section Simulation.
+  Variable S : Type.
+  Variable rd : N -> S -> option (list N * S).
+  Variable alpha : S -> list N.
+  Hypothesis rd_some : forall n s x s', rd n s = Some (x, s') -> take n (alpha s) = Some (x, alpha s').
+  Hypothesis rd_none : forall n s, rd n s = None -> take n (alpha s) = None.
+
+  Lemma read_block_sim flag term s :
+    read_block flag term (alpha s) =
+      (fst (read_block_g S rd flag term s), alpha (snd (read_block_g S rd flag term s))).
+  Proof.
+    unfold read_block, read_block_g.
+    destruct (rd 2 s) as [[header s1]|] eqn:R1; [rewrite (rd_some _ _ _ _ R1)|rewrite (rd_none _ _ R1); reflexivity].
+    destruct header as [|h0 [|h1 [|? ?]]]; try reflexivity.
+    destruct (negb (h0 =? 35)); [reflexivity|]. destruct (negb (is_digit h1)); [reflexivity|].
+    cbv zeta. destruct (h1 - 48 =? 0); [reflexivity|].
+    destruct (rd (h1 - 48) s1) as [[header2 s2]|] eqn:R2; [rewrite (rd_some _ _ _ _ R2)|rewrite (rd_none _ _ R2); reflexivity].
+    destruct (negb (isdigit header2)); [reflexivity|].
+    destruct (rd (parse_dec header2) s2) as [[data s3]|] eqn:R3; [rewrite (rd_some _ _ _ _ R3)|rewrite (rd_none _ _ R3); reflexivity].
+    destruct flag; [|reflexivity].
+    destruct (rd (len term) s3) as [[tail s4]|] eqn:R4; [rewrite (rd_some _ _ _ _ R4)|rewrite (rd_none _ _ R4); reflexivity].
+    destruct (bytes_eqb tail term); reflexivity.
+  Qed.
+End Simulation.
+
+Lemma cfill_spec n : forall pend buf b p, cfill n buf pend = (b, p) ->
+  b ++ concat p = buf ++ concat pend /\ (len b < n -> p = []).
+Proof.
+  induction pend as [|c r IH]; intros buf b p H; cbn [cfill] in H.
+  - injection H as <- <-. split; [reflexivity|reflexivity].
+  - destruct (len buf <? n) eqn:E.
+    + destruct (IH _ _ _ H) as [A B]. split; [rewrite A; cbn [concat]; rewrite app_assoc; reflexivity|exact B].
+    + injection H as <- <-. split; [reflexivity|]. intro. lia.
+Qed.
+
+Lemma take_prefix n b x : n <= len b ->
+  take n (b ++ x) = Some (firstn (N.to_nat n) b, skipn (N.to_nat n) b ++ x).
+Proof.
+  intro H. unfold take. rewrite len_app'. replace (len b + len x <? n) with false by lia.
+  rewrite firstn_app, skipn_app. replace (N.to_nat n - length b)%nat with 0%nat by (unfold len in H; lia).
+  cbn [firstn skipn]. rewrite app_nil_r. reflexivity.
+Qed.
+
+Lemma ctake_some n s x s' : ctake n s = Some (x, s') -> take n (cflat s) = Some (x, cflat s').
+Proof.
+  unfold ctake, cflat. destruct (cfill n (fst s) (snd s)) as [b p] eqn:F.
+  destruct (cfill_spec _ _ _ _ _ F) as [A _]. rewrite <- A.
+  destruct (len b <? n) eqn:E; [discriminate|]. intro H. injection H as <- <-. cbn [fst snd].
+  apply take_prefix. lia.
+Qed.
+
+Lemma ctake_none n s : ctake n s = None -> take n (cflat s) = None.
+Proof.
+  unfold ctake, cflat. destruct (cfill n (fst s) (snd s)) as [b p] eqn:F.
+  destruct (cfill_spec _ _ _ _ _ F) as [A B]. rewrite <- A.
+  destruct (len b <? n) eqn:E; [|discriminate]. intros _. rewrite (B ltac:(lia)). cbn [concat]. rewrite app_nil_r.
+  unfold take. rewrite E. reflexivity.
+Qed.
+
+(* reading a block from any sequence of transfers = reading it from their concatenation: same
+   outcome, same unread bytes -- wherever the cuts fall ('#', digit count, length digits, data,
+   terminator), including empty transfers *)
+Lemma read_block_split flag term transfers :
+  read_block flag term (concat transfers) =
+    (fst (read_block_chunked flag term transfers), cflat (snd (read_block_chunked flag term transfers))).
+Proof.
+  unfold read_block_chunked.
+  apply (read_block_sim cstate ctake cflat ctake_some ctake_none flag term (@nil N, transfers)).
+Qed.
+
+Lemma read_block_split_roundtrip (flag : bool) (term : list N) nd data rest transfers :
+  (1 <= nd <= 9)%nat -> len data < 10 ^ N.of_nat nd ->
+  concat transfers = encode_block nd data ++ (if flag then term else []) ++ rest ->
+  fst (read_block_chunked flag term transfers) = Ok data /\
+  cflat (snd (read_block_chunked flag term transfers)) = rest.
+Proof.
+  intros Hnd Hl C. pose proof (read_block_split flag term transfers) as S.
+  rewrite C, read_block_roundtrip in S by assumption. injection S as <- <-. split; reflexivity.
+Qed.
+
+(* ---------- write / ask with a command that is not ASCII -------------------------------------- *)
+Lemma scpi_write_ascii cmd ct : ascii cmd = true -> scpi_write cmd ct = Ok [cmd ++ ct].
+Proof. intro A. unfold scpi_write. fold (ascii cmd). rewrite A. reflexivity. Qed.
+Lemma scpi_write_nonascii cmd ct : ascii cmd = false -> scpi_write cmd ct = Err EUniEnc.
+Proof. intro A. unfold scpi_write. fold (ascii cmd). rewrite A. reflexivity. Qed.
